@@ -19,7 +19,7 @@ def gen_cases(seed, tier):
     add("none", 0, [])
     # the deduplicating adder hashes contents of one cluster size (4 MiB) and more through another path:
     # first occurrences around that size, every hint, memory and file sources, then their duplicates
-    for comp in (["zstd:1"] if tier == "quick" else ["zstd:1", "lz4:3", "none"]):
+    for comp in (["zstd:1"] if tier == "quick" else ["zstd:1", "lz4:3"]):
         big = [("y", "mem", "g:4194304:21:t"), ("y", "file", "g:4194305:22:t"), ("n", "mem", "g:4194304:23:r"), ("d", "mem", "g:4200000:24:t"),
                ("y", "mem", "g:4194303:25:t"), ("n", "file", "g:4194310:26:t")]
         if tier == "quick":
